@@ -9,7 +9,7 @@ import (
 
 func main() {
 	if len(os.Args) < 4 {
-		fmt.Fprintln(os.Stderr, "usage: gvgen dump|ble <repo> <outfile>")
+		fmt.Fprintln(os.Stderr, "usage: gvgen dump|ble|alias <repo> <outfile>")
 		os.Exit(2)
 	}
 	switch os.Args[1] {
@@ -17,6 +17,8 @@ func main() {
 		dump(os.Args[2], os.Args[3])
 	case "ble":
 		translateBle(os.Args[2], os.Args[3])
+	case "alias":
+		translateAlias(os.Args[2], os.Args[3])
 	default:
 		fmt.Fprintln(os.Stderr, "unknown subcommand")
 		os.Exit(2)
